@@ -81,6 +81,51 @@ pub fn strategy() -> impl Strategy<Value = Case> {
     })
 }
 
+/// one block of call histories around a pseudo-randomly chosen second (a pure function of the block number, so the
+/// whole history can be replayed from it)
+fn history_block(b: u64) -> BlockReport {
+    let mut rep = BlockReport::default();
+    let mut judge = |unit: u64, x: u64, rep: &mut BlockReport| {
+        let c = Case { unit, x };
+        rep.evaluations += 1;
+        match check(&c) {
+            Ok(_) => rep.nontrivial += 1,
+            Err(v) => {
+                if rep.violation.is_none() {
+                    rep.violation = Some((json!({"history_block": b, "failing_call": c}), v));
+                }
+            }
+        }
+    };
+    let base_s = crate::util::splitmix64(0xC17 ^ b) % ((1u64 << 32) - 4) + 2;
+    for unit in [1000u64, 1_000_000] {
+        let start = base_s * unit + unit / 4;
+        // descending walk with steps of about a tenth of a second across two second boundaries
+        let mut x = start;
+        for _ in 0..24 {
+            judge(unit, x, &mut rep);
+            x -= unit / 10 + 1;
+        }
+        // zig-zag around the boundary
+        for (i, d) in [250u64, 900, 50, 999, 1, 500, 998, 2].iter().enumerate() {
+            let off = d * unit / 1000;
+            let x = if i % 2 == 0 { base_s * unit + off } else { base_s * unit - off.max(1) };
+            judge(unit, x, &mut rep);
+        }
+    }
+    // both constructors alternately about instants less than a second apart
+    let ms = base_s * 1000 - 100;
+    for k in 0..12u64 {
+        judge(1000, ms + k * 35, &mut rep);
+        judge(1_000_000, (ms + k * 35) * 1000 + 350_000 + k, &mut rep);
+        judge(1_000_000, (ms + k * 35) * 1000 - 350_000 - k, &mut rep);
+    }
+    if b == 5 {
+        rep.sample = Some(json!({"around second": base_s, "histories": "descending walk, zig-zag, alternating from_ms/from_us"}));
+    }
+    rep
+}
+
 pub fn run(run: &Run) {
     run.rule(
         "cases = (constructor, u64 input with input/unit-per-second < 2^32): enumerated boundaries (0, unit multiples +-1, powers of two +-1, \
@@ -206,51 +251,19 @@ pub fn run(run: &Run) {
     // (4) call histories on one thread: the constructors are pure functions, so the answer must not depend on what was
     //     asked before — descending dense walks across second boundaries, zig-zag walks with steps below one second,
     //     and both constructors asked alternately about neighbouring instants
-    run.enumerate("call-histories", 4096, false, |b| {
-        let mut rep = BlockReport::default();
-        let mut judge = |unit: u64, x: u64, rep: &mut BlockReport| {
-            let c = Case { unit, x };
-            rep.evaluations += 1;
-            match check(&c) {
-                Ok(_) => rep.nontrivial += 1,
-                Err(v) => {
-                    if rep.violation.is_none() {
-                        rep.violation = Some((json!({"history": "see section call-histories", "failing_call": c}), v));
-                    }
-                }
-            }
-        };
-        let base_s = crate::util::splitmix64(0xC17 ^ b) % ((1u64 << 32) - 4) + 2;
-        for unit in [1000u64, 1_000_000] {
-            let start = base_s * unit + unit / 4;
-            // descending walk with steps of about a tenth of a second across two second boundaries
-            let mut x = start;
-            for _ in 0..24 {
-                judge(unit, x, &mut rep);
-                x -= unit / 10 + 1;
-            }
-            // zig-zag around the boundary
-            for (i, d) in [250u64, 900, 50, 999, 1, 500, 998, 2].iter().enumerate() {
-                let off = d * unit / 1000;
-                let x = if i % 2 == 0 { base_s * unit + off } else { base_s * unit - off.max(1) };
-                judge(unit, x, &mut rep);
-            }
-        }
-        // both constructors alternately about instants less than a second apart
-        let ms = base_s * 1000 - 100;
-        for k in 0..12u64 {
-            judge(1000, ms + k * 35, &mut rep);
-            judge(1_000_000, (ms + k * 35) * 1000 + 350_000 + k, &mut rep);
-            judge(1_000_000, (ms + k * 35) * 1000 - 350_000 - k, &mut rep);
-        }
-        if b == 5 {
-            rep.sample = Some(json!({"around second": base_s, "histories": "descending walk, zig-zag, alternating from_ms/from_us"}));
-        }
-        rep
-    });
+    run.enumerate("call-histories", 4096, false, history_block);
     run.random("random", run.cases(2_000_000, 40_000_000), 0.5, strategy, check);
 }
 
-pub fn replay(_section: &str, case: &Value) -> Option<CheckResult> {
+pub fn replay(section: &str, case: &Value) -> Option<CheckResult> {
+    if section == "call-histories" {
+        // re-execute the whole history of that block on this thread
+        let b = case["history_block"].as_u64()?;
+        let rep = history_block(b);
+        return Some(match rep.violation {
+            Some((_, v)) => Err(v),
+            None => Ok(Pass::new(true).class("call-history")),
+        });
+    }
     case_from::<Case>(case).map(|c| check(&c))
 }
